@@ -94,6 +94,19 @@ func DateTimeFromProto(proto *dtpb.DateTime) (DateTime, error) {
 	return DateTime{t, l}, nil
 }
 
+// instantFromProto takes a proto Instant as input and returns a System DateTime.
+// Note that the highest precision supported by System.DateTime is Millisecond.
+func instantFromProto(proto *dtpb.Instant) (DateTime, error) {
+	t, err := fhirconv.InstantToTime(proto)
+	if err != nil {
+		return DateTime{}, err
+	}
+	if proto.Precision == dtpb.Instant_SECOND {
+		return DateTime{t, dtSecondLayoutTZ}, nil
+	}
+	return DateTime{t, dtMillisecondLayoutTZ}, nil
+}
+
 // ToProtoDateTime returns a proto DateTime based on a system DateTime.
 // Note that the highest precision supported by System.DateTime is Millisecond.
 func (dt DateTime) ToProtoDateTime() *dtpb.DateTime {
